@@ -169,3 +169,6 @@ class C14(Prop):
 
 
 PROP = C14()
+
+PROP.rule += (" Strata added while closing seeded changes (DESIGN section 10): "
+              'item-level API, index/mnemonic precedence, naming right after set_data, caller arrays shared between curves and LASFiles.')
